@@ -19,7 +19,11 @@ class BuiltinNameSanitizer(NameSanitizer):
             return ""
 
         first_letter = name[0] if name[0] in string.ascii_letters else "_"
-        result = first_letter + self._BAD_CHARS.sub("", name[1:].translate(self._TRANSLATE_MAP))
+        # some chars matching \w can not be a part of identifier (e.g. superscript digits)
+        result = first_letter + "".join(
+            char for char in self._BAD_CHARS.sub("", name[1:].translate(self._TRANSLATE_MAP))
+            if (first_letter + char).isidentifier()
+        )
         if keyword.iskeyword(result):
             return result + "_"
         return result
